@@ -80,7 +80,9 @@ ArgsFor(op) ==
                e \in {"0", "E1"}, c \in CasClasses,
                <<o, b>> \in {<<"", "J1">>, <<"", "J2">>, <<"", "">>, <<"raw", "R1">>, <<"raw", "R0">>, <<"addonly", "J1">>,
                              <<"addonlyraw", "R2">>, <<"append", "R2">>}}
-      [] op = "Remove" -> {[A0 EXCEPT !.casc = c] : c \in CasClasses}
+           \* the CAS given is that of another document of the collection
+           \cup {WithBody([A0 EXCEPT !.casc = "sibkey", !.opt = o], b) : <<o, b>> \in {<<"", "J1">>, <<"raw", "R1">>, <<"append", "R2">>}}
+      [] op = "Remove" -> {[A0 EXCEPT !.casc = c] : c \in CasClasses \cup {"sibkey"}}
       [] op = "Delete" -> {A0}
       [] op = "Update" ->
            {WithBody([A0 EXCEPT !.exp = e, !.cb = cb], IF cb \in {"set", "retry", "err"} THEN "J2" ELSE "") :
@@ -127,6 +129,9 @@ ArgsFor(op) ==
            \* the caller passes an xattr object without members
            \cup {WithBody([A0 EXCEPT !.casc = c, !.newc = nc, !.opt = "emptyx", !.json = (b = "J1")], b) :
                     c \in {"zero", "cur"}, nc \in {"hi", "mid"}, b \in {"J1", "R1", ""}}
+           \* a copy of the same key's document in another collection that keeps its CAS; a body of no bytes
+           \cup {WithBody([A0 EXCEPT !.casc = c, !.newc = "sib", !.json = (b = "J1")], b) : c \in {"zero", "cur"}, b \in {"J1", "R1", ""}}
+           \cup {WithBody([A0 EXCEPT !.casc = c, !.newc = "hi"], "R0") : c \in {"zero", "cur"}}
       [] op = "DeleteWithMeta" ->
            {[A0 EXCEPT !.exp = e, !.casc = c, !.newc = nc, !.sets = s] :
                e \in {"0"}, c \in CasClasses, nc \in {"hi", "mid", "low", "btw", "far"}, s \in PlainSets \cup {NoSets}}
@@ -152,15 +157,24 @@ MaxCas == LET all == {store[c][k].cas : c \in Colls, k \in Keys} \cup {clock} IN
           CHOOSE m \in all : \A x \in all : x <= m
 
 (* resolve the CAS classes of an argument record against the current document *)
-Resolve(a, d) ==
+MaxOf(S) == CHOOSE m \in S : \A x \in S : x <= m
+(* the CAS of the same key in another collection / of another key in the same collection (0: there is none) *)
+SibCas(c, k) == LET S == {store[c2][k].cas : c2 \in Colls \ {c}} \ {0} IN IF S = {} THEN 0 ELSE MaxOf(S)
+OtherKeyCas(c, k) == LET S == {store[c][k2].cas : k2 \in Keys \ {k}} \ {0} IN IF S = {} THEN 0 ELSE MaxOf(S)
+
+Resolve(a, d, c, k) ==
     [a EXCEPT !.cas = CASE a.casc = "zero" -> 0
                         [] a.casc = "cur" -> IF IsAbsent(d) THEN 9999 ELSE d.cas
                         [] a.casc = "stale" -> 9998
+                        \* "sibkey": the current CAS of another document of the same collection
+                        [] a.casc = "sibkey" -> IF OtherKeyCas(c, k) \in {0, d.cas} THEN 9996 ELSE OtherKeyCas(c, k)
                         [] OTHER -> 9997,
               \* "btw": above the collection's own newest CAS, below another collection's (in this model: a new top);
               \* "far": a minute ahead of the process clock
               !.newcas = CASE a.newc \in {"hi", "btw", "far"} -> MaxCas + 1
                            [] a.newc = "mid" -> IF d.cas > 1 THEN d.cas - 1 ELSE MaxCas + 1
+                           \* "sib": exactly the CAS the same key carries in another collection (a copy that keeps its CAS)
+                           [] a.newc = "sib" -> IF SibCas(c, k) \in {0, d.cas} THEN MaxCas + 1 ELSE SibCas(c, k)
                            [] OTHER -> 1]
 
 Purge(st) == [c \in Colls |-> [k \in Keys |-> IF IsTomb(st[c][k]) THEN AbsentDoc ELSE st[c][k]]]
@@ -168,7 +182,7 @@ Purge(st) == [c \in Colls |-> [k \in Keys |-> IF IsTomb(st[c][k]) THEN AbsentDoc
 (* One public call. *)
 Apply(op, c, k, a0) ==
     LET d == store[c][k]
-        a == Resolve([a0 EXCEPT !.key = k], d)
+        a == Resolve([a0 EXCEPT !.key = k], d, c, k)
         n == clock + 1
     IN
     IF op = "PurgeTombstones"
